@@ -742,6 +742,22 @@ pub fn gen_settings(cs: &mut ChoiceStream, verbose: bool) -> DefaultSettings<f64
         2 => s.equilibrate_max_iter = 3,
         _ => {}
     }
+    // the remaining values shown in the settings header (all legal)
+    match cs.choose("s.misc2", 10) {
+        1 => s.iterative_refinement_max_iter = 3,
+        2 => s.iterative_refinement_max_iter = 25,
+        3 => s.iterative_refinement_stop_ratio = 2.0,
+        4 => {
+            s.iterative_refinement_reltol = 1e-10;
+            s.iterative_refinement_abstol = 1e-14;
+        }
+        5 => {
+            s.equilibrate_min_scaling = 1e-2;
+            s.equilibrate_max_scaling = 1e2;
+        }
+        6 => s.static_regularization_proportional = 1e-20,
+        _ => {}
+    }
     s
 }
 
